@@ -169,6 +169,8 @@ def generate(rng):
                                   for _ in range(rng.randint(1, 3)))
     scn['vt_cap_s'] = 400000
     scn['step_cap'] = 250000
+    if scn.get('use_poll') and scn.get('transport') in ('pty', 'fd') and rng.random() < 0.3:
+        scn['many_fds'] = True      # > 1024 descriptors open: select() would raise, every wait must go through poll
     return scn
 
 
